@@ -603,7 +603,7 @@ func main() {
 	if n == 0 {
 		n = 500
 		if args.Tier == "thorough" {
-			n = 6500
+			n = 5500 // ~36 mutants per pre-execution since the multiset mutations were added: keeps the tier below 20 min
 		}
 	}
 	g := &Gen{r: xvlib.NewRng(args.Seed*1000003 + 909), e: ex, out: out}
